@@ -81,6 +81,18 @@ func sends(i, k int, r *rand.Rand, seq *int) []label {
 
 func lSendsOne(i int, r *rand.Rand, seq *int) []label { return sends(i, 1, r, seq) }
 
+// other servers of the process: one or two, with maxima different from the scenario's own (smaller and larger)
+func decoyList(r *rand.Rand, own int64, yes bool) []int32 {
+	if !yes {
+		return nil
+	}
+	out := []int32{int32((own + 2 + int64(r.Intn(3))) % 6)}
+	if r.Intn(2) == 0 {
+		out = append(out, int32((own+1)%3))
+	}
+	return out
+}
+
 func cat(ls ...[]label) []label {
 	var out []label
 	for _, l := range ls {
@@ -222,6 +234,25 @@ func generate(e *vh.Env) []scenario {
 			out = append(out, scenario{class: "accept-errors/server-close", maxc: 2, amax: 5, strategy: staticStrategy([][]label{
 				{arr(0)}, {arr(1)}, {gl(lSrvClose)}, sends(0, 2, r, &seq), ev(0), ev(1)})})
 		}
+	}
+	// 1g. flush through the accept path: a real Server with the real SessionMgr as its connection manager (the accepted
+	//     *net.TCPConn reaches SessionMgr.Do unwrapped), a reply of tens of MiB queued (every payload symbol is 32 KiB
+	//     handed to Session.Send - far beyond what the socket buffers hold), local Close, and a peer that begins to read
+	//     only after the Close has been issued: it must receive every byte, in order, and then the end of the stream
+	nAF := e.Scale(2, 6)
+	for n := 0; n < nAF && want("accept-flush"); n++ {
+		var ss []label
+		k := 80 + r.Intn(30)
+		for j := 0; j < k; j++ {
+			p := make([]byte, 8+r.Intn(3))
+			for x := range p {
+				p[x] = byte(1 + (j*7+x)%250)
+			}
+			ss = append(ss, lSend(0, p))
+		}
+		ph := [][]label{{{kind: lArrive, i: 0}}, {lb(aPeerPause, 0)}, cat(ss, []label{lb(aLocalClose, 0)}), {lb(aPeerRead, 0)}, {lSend(0, []byte{1})}}
+		out = append(out, scenario{class: "accept-flush", maxc: 2, sendAmp: 32 << 10, rawMgr: true, lateRead: true, strategy: staticStrategy(ph),
+			decoysAfter: decoyList(r, 2, n%2 == 0)})
 	}
 	// 2. every order of two terminating events: one after the other, and racing in one burst
 	for tr := 0; tr < 2; tr++ {
@@ -400,7 +431,8 @@ func generate(e *vh.Env) []scenario {
 	nAcc := e.Scale(36, 400)
 	for n := 0; n < nAcc && want("accept"); n++ {
 		maxc := int64([]int{1, 2, 3, 1, 2, 3, 0}[n%7])
-		out = append(out, scenario{class: fmt.Sprintf("accept/max=%d", maxc), maxc: maxc, strategy: walk(rand.New(rand.NewSource(r.Int63())), walkCfg{accept: true, steps: 8 + r.Intn(8)}), closeErr: r.Intn(3) == 0, slowExit: r.Intn(2) == 0})
+		out = append(out, scenario{class: fmt.Sprintf("accept/max=%d", maxc), maxc: maxc, strategy: walk(rand.New(rand.NewSource(r.Int63())), walkCfg{accept: true, steps: 8 + r.Intn(8)}), closeErr: r.Intn(3) == 0, slowExit: r.Intn(2) == 0,
+			decoysBefore: decoyList(r, maxc, n%3 == 1), decoysAfter: decoyList(r, maxc, n%3 != 1)})
 	}
 	// 8. several sessions on one manager
 	nMulti := e.Scale(30, 400)
